@@ -30,7 +30,7 @@ func (c10) Rule() string {
 func (c10) Exhaustive(string) string { return "" }
 func (c10) Runs(tier string) int64 {
 	if tier == "thorough" {
-		return 600000
+		return 4000000
 	}
 	return 24000
 }
